@@ -46,7 +46,13 @@ def path(E, R, L, testnet):
     c = E.bytes("c", 32)
     idxs = [E.bv("i%d" % j, 32) for j in range(L)]
     root = R.bip32.PrvKeyNode(key=kb, chain_code=c, testnet=testnet)
-    leaf = E.run(root.derive_path, list(idxs))
+    same_list = list(idxs)
+    leaf = E.run(root.derive_path, same_list)
+    E.check(len(same_list) == L and all(a is b for a, b in zip(same_list, idxs)), "derive_path leaves the caller's index list unchanged")
+    second = E.run(root.derive_path, same_list)
+    if not isinstance(leaf, Raised):
+        E.check(not isinstance(second, Raised) and E.eq([second.key, second.chain_code, second.depth], [leaf.key, leaf.chain_code, leaf.depth]),
+                "a second derivation with the same list object gives the same node data")
     kk, cc = k, c
     fpr = b"\x00" * 4
     for j, i in enumerate(idxs):
